@@ -444,7 +444,7 @@ Proof.
       split; [split; [exact Wn|]; split; [exact Wc|]; split; [exact Wm|]; split; [exact Wl|exact Wn]|].
       split; [intros; lia|]. split; [reflexivity|].
       split; [cbn [s_ptr s_cur]; repeat split; intros; try discriminate; try lia; auto|].
-      change (persisted (mkS (s_word s) (s_new s) (s_cur s) (s_maps s) (g :: s_closed s) (s_cells s) (s_faults s) (s_sat s) (s_full s) (s_new s))) with (persisted s).
+      change (persisted (mkS (s_word s) (s_new s) (s_cur s) (s_maps s) (g :: s_closed s) (s_cells s) (s_faults s) (s_sat s) (s_full s) (s_new s) (s_tight s))) with (persisted s).
       cbn [s_sat]. split; [lia|]. intros Hs. split; [exact Hs|lia].
     + exists LOCKED, false, e. psimp. split; [exact F|]. ms Hpc. psimp.
       split; [lia|]. split; [split; [assumption|intros; discriminate]|].
@@ -509,7 +509,7 @@ Proof.
       unfold persisted. cbn [s_cells s_sat]. rewrite persisted_app.
       split; [lia|]. intros Hs. split; [exact Hs|lia].
     + (* SameFile *)
-      destruct (s_cur s) as [g0|] eqn:Ec; injection H as <- <-.
+      destruct (s_cur s) as [g0|] eqn:Ec; [destruct (s_tight s) eqn:Eti|]; injection H as <- <-.
       * destruct (Hgo (n_after_store_extend np)) as (G1 & G2 & G3 & G4 & G5 & G6 & G7 & G8 & G9 & G10 & G11 & G12).
         exists r, h, e. split; [exact F|]. rewrite G1, G2, G3, G4, G5, G8, G9, G10, G11, G12, M3, M4.
         split; [exact C|]. split; [exact G7|]. split.
@@ -523,6 +523,7 @@ Proof.
         split; [exact N|]. split; [exact G6|]. split; [sok Hpc|].
         unfold persisted. cbn [s_cells s_sat].
         split; [lia|]. intros Hs. split; [exact Hs|lia].
+      * same_leaf Hpc F W T N r h.
       * same_leaf Hpc F W T N r h.
     + (* NoFile *)
       injection H as <- <-.
@@ -567,7 +568,7 @@ Proof.
     + exists r, h, e. split; [exact F|]. ms Hpc.
       split; [lia|]. split; [split; [assumption|intros; discriminate]|]. split; [exact W|].
       split; [exact N|]. split; [reflexivity|]. split; [sok Hpc|].
-      change (persisted (mkS (s_word s) (s_ptr s) (s_cur s) (s_maps s) (g :: s_closed s) (s_cells s) (s_faults s) (s_sat s) (s_full s) (s_new s))) with (persisted s).
+      change (persisted (mkS (s_word s) (s_ptr s) (s_cur s) (s_maps s) (g :: s_closed s) (s_cells s) (s_faults s) (s_sat s) (s_full s) (s_new s) (s_tight s))) with (persisted s).
       cbn [s_sat]. split; [lia|]. intros Hs. split; [exact Hs|lia].
     + same_leaf Hpc F W T N r h.
   - (* Crash *) ms Hpc. discriminate.
